@@ -75,6 +75,7 @@ def run(prog, chk):
     list_is_what_was_evaluated(prog, chk)
     from props import C17
     C17.limit_predicates(prog, chk)  # each loop is bounded on its own: the count compared with loop_limit is that loop's own counter
+    C17.limit_errors_keep_their_variant(prog, chk)  # a loop that exceeds its limit ends the transform with that error (nothing on the way turns it into a retryable one)
     loop_variable_names_verbatim(prog, chk)
     extent_accumulation(prog, chk)
     from props import geomalg
